@@ -293,6 +293,25 @@ def read_impls(F):
     return [f for f in F.fns if f.impl and last_seg(f.impl.get('trait')) == 'Read' and f.name == 'read']
 
 
+def effective_read(F, f):
+    """The function holding the logic of an impl Read::read: `read` itself, or the same-type method it hands its
+    buffer parameter to unchanged (a thin `read` that wraps the real body, e.g. to record a failure)."""
+    prov = Prov(f)
+    for bi, t, c in f.calls():
+        if len(t['args']) < 2:
+            continue
+        for g in F.resolve_callee(c):
+            if g.self_adt == f.self_adt and g.kind != 'closure' and g is not f and g.d.get('output') == f.d.get('output'):
+                a = prov.operand(t['args'][1], 0, '%d:T' % bi)
+                if a[0] == 'param' and a[1] == 2:
+                    return g
+    return f
+
+
+def read_bodies(F):
+    return [effective_read(F, f) for f in read_impls(F)]
+
+
 @rule('ZERO-READ', ['C07'], floor=4)
 def zero_read(ctx):
     """A zero-length read never disturbs the stream: an impl Read::read that hands the caller's own
@@ -300,7 +319,7 @@ def zero_read(ctx):
     empty buffer."""
     F = ctx.facts
     n = 0
-    for f in read_impls(F):
+    for f in read_bodies(F):
         prov = Prov(f)
         for bi, t, c in f.calls():
             if not is_trait_call(c, READ_TRAITS, 'read'):
@@ -497,6 +516,8 @@ def counter_truth(ctx):
     for f in F.fns:
         if not (f.impl and last_seg(f.impl.get('trait')) in ('Read', 'Write') and f.name in ('read', 'write')):
             continue
+        if f.name == 'read':
+            f = effective_read(F, f)
         prov = Prov(f)
         inner = []
         for bi, t, c in f.calls():
@@ -754,7 +775,7 @@ def interrupt_latch(ctx):
     from lzlint.core import control_conditions, field_path
     F = ctx.facts
     n = 0
-    for f in read_impls(F):
+    for f in read_bodies(F):
         prov = None
         for bi, t, c in f.calls():
             if not is_trait_call(c, READ_TRAITS, 'read') or t['dest']['p']:
